@@ -662,6 +662,7 @@ func (g *gen) genForm(outer []*mport) {
 			// replace by a plain close to stay in the specified subset
 			reds[len(reds)-1] = dstText + op + "&-"
 			grow(dst)
+			g.release(tbl, owned, dst) // same bookkeeping as the ordinary close branch
 			tbl[dst] = &mport{valOut: "raise", valIn: "nochan"}
 			continue
 		}
